@@ -4,6 +4,9 @@ import (
 	"context"
 	"errors"
 	"fmt"
+	"io/fs"
+	"os"
+	"path/filepath"
 	"strings"
 
 	"github.com/fsnotify/fsnotify"
@@ -27,6 +30,14 @@ func DetectDeviceConfigChanges(ctx context.Context) <-chan bool {
 		userKeyboard,
 	} {
 		err = watcher.Add(path)
+		// configurations are loaded from sub-directories as well (the loader walks the whole tree) and a watch does not
+		// reach below its directory: every sub-directory gets its own
+		_ = filepath.WalkDir(path, func(sub string, d fs.DirEntry, err error) error {
+			if err == nil && d.IsDir() && sub != path {
+				_ = watcher.Add(sub)
+			}
+			return nil
+		})
 	}
 
 	go func() {
@@ -46,6 +57,12 @@ func DetectDeviceConfigChanges(ctx context.Context) <-chan bool {
 			case event, ok := <-watcher.Events:
 				if !ok {
 					return
+				}
+				if event.Op&fsnotify.Create != 0 {
+					// a sub-directory that appears later is watched from now on
+					if info, err := os.Stat(event.Name); err == nil && info.IsDir() {
+						_ = watcher.Add(event.Name)
+					}
 				}
 				if event.Op != fsnotify.Write {
 					continue
